@@ -1,1 +1,348 @@
 //! Verification hooks: shapeinfer (cfg `rten_verif`).
+//!
+//! Re-exposes, through public types only (`SymTensor`, `Value`, `ValueType`, `Dimension`):
+//!
+//! * [`VOp`]: one operator deserialized by the real ONNX operator registry from the first
+//!   node of a serialized `ModelProto`, with its shape inference (`as_infer_shapes`), its
+//!   declared output-type rules (`output_types`) and its `run` method;
+//! * [`VGraph`]: a graph assembled from plain data (value nodes, constants, operators read
+//!   through the registry) on which the crate-private graph-level shape/type inference
+//!   driver (`crate::infer_shapes::infer_shapes`) and `Graph::run` can be invoked.
+//!
+//! Nothing here changes behaviour; it is only compiled with `--cfg rten_verif`.
+use std::sync::Arc;
+
+use rten_onnx::onnx;
+use rten_tensor::Tensor;
+
+use crate::buffer_pool::BufferPool;
+use crate::graph::{Constant, Dimension, Graph, NodeId};
+use crate::infer_shapes::{
+    InferShapeOptions, InferShapesContext, InferShapesError, Shape, SymTensor, SymbolGen,
+    infer_shapes,
+};
+use crate::model::onnx_loader::load_constant;
+use crate::op_registry::onnx_registry::{ConstInput, OpLoadContext};
+use crate::op_registry::{OpRegistry, ReadOpError};
+use crate::operator::{InputList, OpRunContext, Operator, OutputMask, OutputType, OutputTypesContext};
+use crate::value::{Value, ValueOrView, ValueType, ValueView};
+
+/// Public mirror of the crate-private `OutputType` rule language.
+#[derive(Clone, Copy, Debug, PartialEq)]
+pub enum TypeRule {
+    Fixed(ValueType),
+    CopyFromInput(u32),
+    ElementTypeOfInputSequence(u32),
+    SequenceWithElementTypeOfInput(u32),
+}
+
+impl From<OutputType> for TypeRule {
+    fn from(t: OutputType) -> TypeRule {
+        match t {
+            OutputType::Fixed(vt) => TypeRule::Fixed(vt),
+            OutputType::CopyFromInput(i) => TypeRule::CopyFromInput(i),
+            OutputType::ElementTypeOfInputSequence(i) => TypeRule::ElementTypeOfInputSequence(i),
+            OutputType::SequenceWithElementTypeOfInput(i) => {
+                TypeRule::SequenceWithElementTypeOfInput(i)
+            }
+        }
+    }
+}
+
+struct LoadCtx {
+    opset: Option<u16>,
+}
+
+impl OpLoadContext for LoadCtx {
+    fn load_graph(&self, _graph: &onnx::GraphProto) -> Result<Graph, ReadOpError> {
+        Err(ReadOpError::attr_error(
+            "subgraph",
+            "subgraphs are not supported by the verification hook",
+        ))
+    }
+
+    fn opset_version(&self) -> Option<u16> {
+        self.opset
+    }
+
+    fn load_tensor(
+        &self,
+        attr_name: &str,
+        tensor: &onnx::TensorProto,
+    ) -> Result<Constant, ReadOpError> {
+        load_constant(tensor, None, None)
+            .map_err(|err| ReadOpError::attr_error(attr_name, err.to_string()))
+    }
+}
+
+fn sat_i32(x: i64) -> i32 {
+    x.clamp(i32::MIN as i64, i32::MAX as i64) as i32
+}
+
+/// Same conversion as the ONNX loader applies to attributes promoted to inputs.
+fn const_input_value(val: &ConstInput) -> Value {
+    match val {
+        ConstInput::Int(v) => Value::from(Tensor::from(sat_i32(*v))),
+        ConstInput::Ints(vs) => {
+            Value::from(Tensor::from(vs.iter().map(|v| sat_i32(*v)).collect::<Vec<i32>>()))
+        }
+        ConstInput::Float(f) => Value::from(Tensor::from(*f)),
+        ConstInput::Floats(fs) => Value::from(Tensor::from(fs.clone())),
+    }
+}
+
+/// One operator read from the first node of an ONNX model by the real registry.
+pub struct VOp {
+    op: Arc<dyn Operator + Send + Sync>,
+    /// Inputs generated from attributes (legacy opsets), as `(input index, value)`.
+    pub const_inputs: Vec<(u32, Value)>,
+    pub input_names: Vec<String>,
+    pub output_names: Vec<String>,
+}
+
+/// Deserialize the `index`-th node of the graph in `model_bytes` (a serialized ONNX
+/// `ModelProto`) with the registry containing all operators.
+pub fn load_op(model_bytes: &[u8], index: usize) -> Result<VOp, String> {
+    let model = onnx::ModelProto::parse_buf(model_bytes).map_err(|e| format!("parse: {e}"))?;
+    let opset = model
+        .opset_import
+        .iter()
+        .find(|os| os.domain.as_deref().unwrap_or_default().is_empty())
+        .and_then(|os| os.version)
+        .and_then(|v| u16::try_from(v).ok());
+    let graph = model.graph.as_ref().ok_or("model has no graph")?;
+    let node = graph.node.get(index).ok_or("node index out of range")?;
+    let registry = OpRegistry::with_all_ops();
+    let ctx = LoadCtx { opset };
+    let parsed = registry
+        .onnx_registry()
+        .read_op(node, &ctx)
+        .map_err(|e| format!("read_op: {e}"))?;
+    if !parsed.unused_attrs.is_empty() {
+        return Err("read_op: unused attributes".to_string());
+    }
+    Ok(VOp {
+        op: parsed.op,
+        const_inputs: parsed
+            .const_inputs
+            .iter()
+            .map(|(i, v)| (*i, const_input_value(v)))
+            .collect(),
+        input_names: node.input.clone(),
+        output_names: node.output.clone(),
+    })
+}
+
+impl VOp {
+    pub fn name(&self) -> String {
+        self.op.name().to_string()
+    }
+
+    pub fn max_inputs(&self) -> Option<usize> {
+        self.op.max_inputs()
+    }
+
+    pub fn max_outputs(&self) -> Option<usize> {
+        self.op.max_outputs()
+    }
+
+    pub fn has_infer(&self) -> bool {
+        self.op.as_infer_shapes().is_some()
+    }
+
+    /// Run the operator's shape inference. `None` if the operator offers none.
+    pub fn infer(
+        &self,
+        inputs: &[Option<SymTensor>],
+    ) -> Option<Result<Vec<SymTensor>, InferShapesError>> {
+        let infer = self.op.as_infer_shapes()?;
+        let mut sym_gen = SymbolGen::new();
+        Some(infer.infer_shapes(InferShapesContext::new(inputs), &mut sym_gen))
+    }
+
+    /// The operator's declared output type rules.
+    pub fn output_types(&self, num_outputs: usize) -> Option<Vec<TypeRule>> {
+        let ctx = OutputTypesContext { num_outputs };
+        self.op
+            .output_types(&ctx)
+            .map(|l| l.into_iter().map(TypeRule::from).collect())
+    }
+
+    /// Execute the operator (not in place) on the given inputs.
+    pub fn run(&self, inputs: &[Option<Value>], num_outputs: usize) -> Result<Vec<Value>, String> {
+        let views: Vec<Option<ValueView>> =
+            inputs.iter().map(|v| v.as_ref().map(|v| v.as_view())).collect();
+        let list = InputList::from_optional(&views);
+        let pool = BufferPool::new();
+        let ctx = OpRunContext::new(&pool, &list, OutputMask::all_used(num_outputs));
+        self.op
+            .run(&ctx)
+            .map(|outs| outs.into_iter().collect())
+            .map_err(|e| e.to_string())
+    }
+}
+
+/// Plain-data description of a graph node for [`build_graph`].
+pub enum GNode {
+    Value {
+        name: String,
+        dtype: Option<ValueType>,
+        shape: Option<Vec<Dimension>>,
+    },
+    Constant {
+        name: String,
+        value: Value,
+    },
+    /// Operator = node `index` of the ONNX model `model_bytes`; inputs/outputs are names of
+    /// `Value`/`Constant` nodes declared earlier in the list (`None` = omitted).
+    Op {
+        name: String,
+        model_bytes: Vec<u8>,
+        index: usize,
+        inputs: Vec<Option<String>>,
+        outputs: Vec<Option<String>>,
+    },
+}
+
+pub struct VGraph {
+    graph: Graph,
+    names: Vec<(String, NodeId)>,
+}
+
+/// What graph-level inference recorded for a value.
+#[derive(Clone, Debug, PartialEq)]
+pub enum InferredShape {
+    /// A constant scalar (`false`) or vector (`true`) with the given values.
+    Constant(bool, Vec<i32>),
+    Shape(Vec<Dimension>),
+}
+
+fn constant_from_value(name: &str, value: Value) -> Result<Constant, String> {
+    Ok(match value {
+        Value::FloatTensor(t) => Constant::new(Some(name), t.into_arc()),
+        Value::Int32Tensor(t) => Constant::new(Some(name), t.into_arc()),
+        Value::Int8Tensor(t) => Constant::new(Some(name), t.into_arc()),
+        Value::UInt8Tensor(t) => Constant::new(Some(name), t.into_arc()),
+        Value::Sequence(_) => return Err("sequence constants are not supported".to_string()),
+    })
+}
+
+pub fn build_graph(nodes: Vec<GNode>, inputs: &[&str], outputs: &[&str]) -> Result<VGraph, String> {
+    let mut graph = Graph::new();
+    let mut names: Vec<(String, NodeId)> = Vec::new();
+    let find = |names: &Vec<(String, NodeId)>, n: &str| -> Result<NodeId, String> {
+        names
+            .iter()
+            .find(|(name, _)| name == n)
+            .map(|(_, id)| *id)
+            .ok_or_else(|| format!("unknown node {n}"))
+    };
+    for node in nodes {
+        match node {
+            GNode::Value { name, dtype, shape } => {
+                let id = graph.add_value(Some(&name), shape, dtype);
+                names.push((name, id));
+            }
+            GNode::Constant { name, value } => {
+                let id = graph.add_constant_node(constant_from_value(&name, value)?);
+                names.push((name, id));
+            }
+            GNode::Op {
+                name,
+                model_bytes,
+                index,
+                inputs,
+                outputs,
+            } => {
+                let vop = load_op(&model_bytes, index)?;
+                let mut in_ids = Vec::new();
+                for i in &inputs {
+                    in_ids.push(match i {
+                        Some(n) => Some(find(&names, n)?),
+                        None => None,
+                    });
+                }
+                for (idx, value) in vop.const_inputs {
+                    let idx = idx as usize;
+                    let cname = format!("{name}.const{idx}");
+                    let id = graph.add_constant_node(constant_from_value(&cname, value)?);
+                    if in_ids.len() <= idx {
+                        in_ids.resize(idx + 1, None);
+                    }
+                    in_ids[idx] = Some(id);
+                }
+                let mut out_ids = Vec::new();
+                for o in &outputs {
+                    out_ids.push(match o {
+                        Some(n) => Some(find(&names, n)?),
+                        None => None,
+                    });
+                }
+                graph.add_op(Some(&name), vop.op, &in_ids, &out_ids);
+            }
+        }
+    }
+    let in_ids: Vec<NodeId> = inputs
+        .iter()
+        .map(|n| find(&names, n))
+        .collect::<Result<_, _>>()?;
+    let out_ids: Vec<NodeId> = outputs
+        .iter()
+        .map(|n| find(&names, n))
+        .collect::<Result<_, _>>()?;
+    graph.set_input_ids(&in_ids);
+    graph.set_output_ids(&out_ids);
+    Ok(VGraph { graph, names })
+}
+
+impl VGraph {
+    fn id(&self, name: &str) -> Result<NodeId, String> {
+        self.names
+            .iter()
+            .find(|(n, _)| n == name)
+            .map(|(_, id)| *id)
+            .ok_or_else(|| format!("unknown node {name}"))
+    }
+
+    /// Run the graph-level shape and type inference driver. Returns, for every named value,
+    /// the inferred shape/constant and the inferred type (if any).
+    pub fn infer(
+        &self,
+        strict: bool,
+        max_complexity: u32,
+    ) -> Result<Vec<(String, Option<InferredShape>, Option<ValueType>)>, String> {
+        let opts = InferShapeOptions {
+            strict,
+            max_complexity,
+        };
+        let result = infer_shapes(&self.graph, opts).map_err(|e| e.to_string())?;
+        let mut out = Vec::new();
+        for (name, id) in &self.names {
+            let shape = result.shapes.get(id).map(|s| match s {
+                Shape::Constant { index } => {
+                    let c = &result.constants[*index];
+                    InferredShape::Constant(c.ndim() == 1, c.values().to_vec())
+                }
+                Shape::Shape(dims) => InferredShape::Shape(dims.clone()),
+            });
+            let dtype = result.types.get(id).copied();
+            out.push((name.clone(), shape, dtype));
+        }
+        Ok(out)
+    }
+
+    /// Run the graph, requesting the named values.
+    pub fn run(&self, inputs: Vec<(String, Value)>, outputs: &[&str]) -> Result<Vec<Value>, String> {
+        let mut ins: Vec<(NodeId, ValueOrView)> = Vec::new();
+        for (name, value) in inputs {
+            ins.push((self.id(&name)?, ValueOrView::Value(value)));
+        }
+        let outs: Vec<NodeId> = outputs
+            .iter()
+            .map(|n| self.id(n))
+            .collect::<Result<_, _>>()?;
+        self.graph
+            .run(ins, &outs, None, None)
+            .map_err(|e| e.to_string())
+    }
+}
